@@ -38,6 +38,9 @@ def run(chk):
                                  {"emit_batcher::Sender": "Drop for Sender closes the channel: the first copy dropped stops the receiver while the others still send, "
                                                           "their items are discarded and a flush reports success at once",
                                   "emit_batcher::Receiver": "two receivers would take batches concurrently and both clear is_in_batch"})
+    # "rolling files are written": the event write itself (write_all of the whole buffer under the recovery flag)
+    from . import c10
+    c10.write_event_rule(chk, P, "C07.R5:write_event")
     return chk
 
 
